@@ -46,6 +46,7 @@ fn load_known() -> KnownFindings {
     }
 }
 
+#[allow(dead_code)]
 pub struct CellRun {
     pub index: u64,
     pub seed: u64,
